@@ -104,11 +104,15 @@ def handle_failure(ev, j, fl, finding_key, seen_keys, env_extra=None, wrapper=No
 def handle_crash(ev, j, rc, output, finding_key, seen_keys):
     """A harness process that aborted (sanitizer report, signal)."""
     tail = output[-6000:]
+    import re as _re
+    summ = _re.search(r"SUMMARY: [^\n]*", output)
+    if summ:
+        tail = summ.group(0) + "\n" + tail
     obj = {"property": j["sub"], "config": j["cfg"], "message": "process aborted rc=%s" % rc, "output": tail,
            "cmd": j["cmd"], "env": j.get("env", {}), "check": ev.prop, "kind": "crash"}
     path = save_replay(ev.prop, obj)
     key = finding_key(j["sub"], {"_crash": tail}, "crash", j["cfg"]) if finding_key else j["sub"] + ":crash"
-    _classify(ev, key, path, "[%s] harness process aborted rc=%s: %s" % (j["cfg"], rc, tail[-800:]), seen_keys)
+    _classify(ev, key, path, "[%s] harness process aborted rc=%s: %s" % (j["cfg"], rc, (summ.group(0) if summ else tail[-800:])), seen_keys)
 
 
 def replay_file(prop_id, path, bin_for_cfg, env_extra=None):
